@@ -91,6 +91,7 @@ type Exec struct {
 	noMergeMemo map[*ssa.Function]bool
 	initDone    map[*ssa.Function]bool
 	boundOK     map[int]bool
+	boundPC     map[int][]*Term
 }
 
 func (ex *Exec) isNoMerge(fn *ssa.Function) bool {
